@@ -328,6 +328,14 @@ func Field(t *types.Named, name string) *types.Var {
 	if v != nil && v.IsField() {
 		return v
 	}
+	// a field that was renamed but is known under its snapshot name (align.go)
+	if st, ok := t.Underlying().(*types.Struct); ok {
+		for i := 0; i < st.NumFields(); i++ {
+			if RoleOf(st.Field(i)) == name {
+				return st.Field(i)
+			}
+		}
+	}
 	return nil
 }
 
@@ -438,7 +446,24 @@ func (p *Prog) MutateFiles(edits map[string][]byte) (*Prog, error) {
 	}
 	for _, old := range order {
 		var files []*ast.File
-		for _, fn := range old.CompiledGoFiles {
+		compiled := append([]string(nil), old.CompiledGoFiles...)
+		// files a variant adds to this package's directory (a method moved into a new file)
+		if len(old.CompiledGoFiles) > 0 {
+			dir := filepath.Dir(old.CompiledGoFiles[0])
+			known := map[string]bool{}
+			for _, fn := range old.CompiledGoFiles {
+				known[fn] = true
+			}
+			var added []string
+			for fn := range targets {
+				if !known[fn] && filepath.Dir(fn) == dir && strings.HasSuffix(fn, ".go") && !strings.HasSuffix(fn, "_test.go") {
+					added = append(added, fn)
+				}
+			}
+			sort.Strings(added)
+			compiled = append(compiled, added...)
+		}
+		for _, fn := range compiled {
 			var content interface{}
 			if src, ok := targets[fn]; ok {
 				content = src
@@ -477,7 +502,7 @@ func (p *Prog) MutateFiles(edits map[string][]byte) (*Prog, error) {
 		}
 		tpkg, _ := conf.Check(old.PkgPath, fset, files, info)
 		done[old.PkgPath] = tpkg
-		npk := &packages.Package{ID: old.ID, Name: old.Name, PkgPath: old.PkgPath, GoFiles: old.GoFiles, CompiledGoFiles: old.CompiledGoFiles,
+		npk := &packages.Package{ID: old.ID, Name: old.Name, PkgPath: old.PkgPath, GoFiles: old.GoFiles, CompiledGoFiles: compiled,
 			Imports: old.Imports, Types: tpkg, Fset: fset, Syntax: files, TypesInfo: info, TypesSizes: old.TypesSizes, Module: old.Module}
 		q.Pkgs = append(q.Pkgs, npk)
 		rel := strings.TrimPrefix(strings.TrimPrefix(old.PkgPath, JetPath), "/")
